@@ -1,4 +1,5 @@
 import Proofs.C05
+import Proofs.C05Store
 #print axioms C05.parts_concat
 #print axioms C05.parts_eq_spec
 #print axioms C05.parts_shape
@@ -9,3 +10,7 @@ import Proofs.C05
 #print axioms C05.gomaxprocs_key
 #print axioms C05.config_key
 #print axioms C05.fullname_excluding_spec
+#print axioms C05.config_key_after_history
+#print axioms C05.config_key_indexed
+#print axioms C05.config_after_api_history
+#print axioms C05.config_key_after_api_history
